@@ -772,7 +772,7 @@ def alternatives(fn: ast.AST, e: ast.AST, conds: List[Tuple[ast.AST, bool]], dep
                 e2 = _replace(e, n, val)
                 out += alternatives(fn, e2, list(conds) + [(n.test, pol)], depth - 1, at)
             return out
-        if isinstance(n, ast.Name) and isinstance(n.ctx, ast.Load) and n.id not in env and n.id not in params and id(n) not in inner_scope:
+        if isinstance(n, ast.Name) and isinstance(n.ctx, ast.Load) and n.id not in env and n.id not in params and id(n) not in inner_scope and not n.id.startswith("__alt"):
             defs = None
             flow = False
             if at is not None:
@@ -795,10 +795,33 @@ def alternatives(fn: ast.AST, e: ast.AST, conds: List[Tuple[ast.AST, bool]], dep
                     if not flow and any(isinstance(x, ast.Name) and x.id == n.id for x in ast.walk(v)):
                         continue  # re-binding in terms of itself (x = f(x)): needs the flow-sensitive path
                     merged = list(conds) + [c for c in cds if (id(c[0]), c[1]) not in {(id(t), p) for t, p in conds}]
-                    out += alternatives(fn, _replace(e, n, v), merged, depth - 1, st)
+                    if not flow:
+                        out += alternatives(fn, _replace(e, n, v), merged, depth - 1, st)
+                        continue
+                    # the value is resolved where it was computed (its own locals as they reach that statement); the other
+                    # locals of `e` are resolved where `e` is used
+                    _alt_counter[0] += 1
+                    ph = ast.Name(f"__alt{_alt_counter[0]}", ast.Load())
+                    e2 = _replace(e, n, ph)
+                    for v2, c2 in alternatives(fn, v, merged, depth - 1, st):
+                        for v3, c3 in alternatives(fn, e2, c2, depth - 1, at):
+                            out.append((_subst_placeholder(v3, ph.id, v2), c3))
                 if out:
                     return out
     return [(e, list(conds))]
+
+
+_alt_counter = [0]
+
+
+def _subst_placeholder(root: ast.AST, name: str, val: ast.AST) -> ast.AST:
+    import copy as _c
+
+    class S(ast.NodeTransformer):
+        def visit_Name(self, node):
+            return _c.deepcopy(val) if node.id == name else node
+
+    return ast.fix_missing_locations(S().visit(_c.deepcopy(root)))
 
 
 def resolved_conditions(fn: ast.AST, conds: List[Tuple[ast.AST, bool]]) -> List[Tuple[ast.AST, bool]]:
